@@ -353,6 +353,11 @@ func init() {
 			impl, pred := runBigBrokered(mux)
 			o.emit("!C14.bigbrokered mux="+b01(mux), impl, pred)
 		}
+		// option conflicts: more than one launch method (or none)
+		for _, kind := range []string{"cmd+runnerfunc", "cmd+reattach", "runnerfunc+reattach", "all-three", "none"} {
+			impl, pred := runLaunchConflict(kind)
+			o.emit("!C14.launch-conflict kind="+kind, impl, pred)
+		}
 		o.note("C14: %d of %d matrix cells; verdicts %v", len(cases), len(all), hist)
 	})
 }
